@@ -130,10 +130,17 @@ func Solve(o *Obligation, cfg *SolverCfg, idx int) {
 		}
 		// replace dropped universally quantified hypotheses by their instances at the ground terms
 		// that match their triggers (manual E-matching; instances are consequences)
+		var qAtoms []*Term
 		if nq > 0 {
 			ground := append(append([]*Term{}, qf...), negGround)
 			instKeepSiblings = o.Kind == "preimage"
+			var qinst []*Term
+			instQuantOut = &qinst
 			qf = append(qf, instantiateForalls(quants, ground)...)
+			instQuantOut = nil
+			if os.Getenv("GOVC_NOQATOMS") == "" {
+				qAtoms = quantAtomStage(qf, quants, qinst, negGround, ground)
+			}
 		}
 		allH := append(append([]*Term{}, o.Hyps...), neg)
 		qfH := append(append([]*Term{}, qf...), negGround)
@@ -142,6 +149,9 @@ func Solve(o *Obligation, cfg *SolverCfg, idx int) {
 				vars = append(vars, variant{"qf+nl-abstracted", (&Script{Asserts: abs, RecDefs: o.Recs}).Render()})
 			}
 			vars = append(vars, variant{"qf-hyps", (&Script{Asserts: qfH, RecDefs: o.Recs}).Render()})
+			if qAtoms != nil {
+				vars = append(vars, variant{"q-atoms", (&Script{Asserts: qAtoms, RecDefs: o.Recs}).Render()})
+			}
 		}
 		if abs, n := abstractNonlinear(allH); n > 0 {
 			vars = append(vars, variant{"nl-abstracted", (&Script{Asserts: abs, RecDefs: o.Recs}).Render()})
@@ -455,6 +465,10 @@ func hasQuantifier(t *Term) bool {
 // other obligations the extra facts only slow the cheap stages down).  Guarded by renderMu.
 var instKeepSiblings bool
 
+// instQuantOut (when non-nil) receives the instances that still contain quantifiers (their
+// nested quantified sub-formulas become propositional atoms in the q-atoms stage).
+var instQuantOut *[]*Term
+
 func instantiateForalls(hyps []*Term, ground []*Term) []*Term {
 	// index ground select/app terms by head
 	type gterm struct{ t *Term }
@@ -547,6 +561,9 @@ func instantiateForalls(hyps []*Term, ground []*Term) []*Term {
 				n++
 				inst := Subst(body, map[*Term]*Term{bv: v})
 				if hasQuantifier(inst) {
+					if instQuantOut != nil {
+						*instQuantOut = append(*instQuantOut, Implies(And(guard...), inst))
+					}
 					// nested quantifier: instantiate the inner one against the same ground terms
 					if depth < 3 {
 						depth++
@@ -569,6 +586,102 @@ func instantiateForalls(hyps []*Term, ground []*Term) []*Term {
 	return out
 }
 
+// quantAtomStage builds the q-atoms weakening: every maximal quantified sub-formula Q of the
+// hypotheses, of the negated goal and of the instances is replaced by a propositional atom p_Q
+// (one atom per distinct formula), and for a universal Q the instances of p_Q ==> Q at the
+// matching ground terms are added.  Replacing a closed formula by an atom and adding
+// consequences of p_Q <=> Q only weakens the problem, so `unsat` is a valid discharge.  It
+// decides goals whose proof is "this quantified fact is literally one of the hypotheses".
+func quantAtomStage(qf, quants, qinst []*Term, negGround *Term, ground []*Term) []*Term {
+	atoms := map[*Term]*Term{}
+	var order []*Term
+	var atomize func(t *Term) *Term
+	memo := map[*Term]*Term{}
+	atomize = func(t *Term) *Term {
+		if r, ok := memo[t]; ok {
+			return r
+		}
+		var r *Term
+		switch {
+		case t.Op == "forall" || t.Op == "exists":
+			a, ok := atoms[t]
+			if !ok {
+				a = Sym(fmt.Sprintf("qa!%d", t.id), SBool)
+				atoms[t] = a
+				order = append(order, t)
+			}
+			r = a
+		case t.Sort == SBool && len(t.Args) > 0 && (t.Op == "and" || t.Op == "or" || t.Op == "not" || t.Op == "=>" || t.Op == "ite" || t.Op == "="):
+			args := make([]*Term, len(t.Args))
+			ch := false
+			for i, a := range t.Args {
+				if a.Sort == SBool {
+					args[i] = atomize(a)
+				} else {
+					args[i] = a
+				}
+				if args[i] != a {
+					ch = true
+				}
+			}
+			if ch {
+				r = rebuild(t, args)
+			} else {
+				r = t
+			}
+		default:
+			r = t
+		}
+		memo[t] = r
+		return r
+	}
+	var out []*Term
+	out = append(out, qf...)
+	for _, h := range quants {
+		out = append(out, atomize(h))
+	}
+	for _, h := range qinst {
+		out = append(out, atomize(h))
+	}
+	out = append(out, negGround)
+	if len(atoms) == 0 {
+		return nil
+	}
+	// p_Q ==> Q, instantiated at the ground terms (two rounds: instances may expose new atoms)
+	done := map[*Term]bool{}
+	for round := 0; round < 2; round++ {
+		var axioms []*Term
+		for _, q := range append([]*Term{}, order...) {
+			if q.Op == "forall" && !done[q] {
+				done[q] = true
+				axioms = append(axioms, Implies(atoms[q], q))
+			}
+		}
+		if len(axioms) == 0 {
+			break
+		}
+		var nested []*Term
+		instQuantOut = &nested
+		// ground terms: everything stated so far (quantifier-free after atomisation), which
+		// includes the skolem terms of quantified parts of the negated goal
+		insts := instantiateForalls(axioms, append(append([]*Term{}, ground...), out...))
+		instQuantOut = nil
+		out = append(out, insts...)
+		for _, h := range nested {
+			out = append(out, atomize(h))
+		}
+	}
+	// a Boolean-sorted leftover quantifier (under a non-Boolean context) would make the script
+	// quantified again: drop such asserts
+	var clean []*Term
+	for _, h := range out {
+		if !hasQuantifier(h) {
+			clean = append(clean, h)
+		}
+	}
+	return clean
+}
+
 // matchBind matches pattern p (containing bv) against ground term g with the same head and
 // returns the value of bv, or nil.  Only one argument may contain bv, either as bv itself or
 // as a sum bv + rest.
@@ -580,7 +693,10 @@ func matchBind(p, g, bv *Term) *Term {
 	for i := range p.Args {
 		pa, ga := p.Args[i], g.Args[i]
 		if !dependsOn(pa, bv) {
-			if pa != ga {
+			// an instance is sound at any term; a ground argument that is an ite with the
+			// pattern's argument as one branch is relevant (the solver closes the gap by
+			// congruence once the branch condition is decided)
+			if pa != ga && (os.Getenv("GOVC_NOITEMATCH") != "" || !iteBranch(ga, pa, 3)) {
 				return nil
 			}
 			continue
@@ -616,6 +732,13 @@ func matchBind(p, g, bv *Term) *Term {
 		return nil
 	}
 	return val
+}
+
+func iteBranch(g, p *Term, fuel int) bool {
+	if g.Op != "ite" || fuel == 0 {
+		return false
+	}
+	return g.Args[1] == p || g.Args[2] == p || iteBranch(g.Args[1], p, fuel-1) || iteBranch(g.Args[2], p, fuel-1)
 }
 
 var skCtr int
